@@ -1,5 +1,6 @@
 import Zc.Proofs.DecodeLib
 import Zc.Proofs.DecodeRefute
+import Zc.Proofs.DecodeAgree
 /-! # C02 — the decoder is total, bounded and faithful on arbitrary datagrams
 
 `parse b` is the model of `DNSIncoming(b)` followed by `.answers()` (`Zc.Wire.DecodeLib`), a total
@@ -77,5 +78,35 @@ theorem C02_names_short_each (b : Bytes) (p : Parsed) (h : (parse b).parsed? = s
     ∀ n ∈ namesOf p, nameLen n ≤ 253 := by
   have := C02_names_short b p h
   simpa [namesShort, List.all_eq_true] using this
+
+/-- **Faithfulness, full statement**: whenever the strict RFC 1035 parser accepts the datagram, it
+uses only supported record types and every label can be written back as a label (`reencodable`, the
+reading of "strict" under the D8 repair, cf. RFC 6762 §16), the object is valid and carries exactly
+the strict parser's header, questions and records. -/
+def C02_agrees_strict_statement : Prop :=
+  ∀ (b : Bytes) (m : WMsg), Strict.decode b = some m → Strict.supportedOnly m = true → reencodable m = true →
+    ∃ p, (parse b).out = .ok p ∧ agrees p m = true
+
+/-- **Faithful names** — the core of `C02_agrees_strict_statement`, proved for every single name and
+every state of the name cache that can arise: wherever the strict decoder reads a name (backward
+pointers, ≤ 128 hops, ≤ 253 characters), `_read_name` returns the same labels and stops at the same
+offset — the `seen_pointers` test, the hop bound, the label-count test, the re-encoding test and
+cache hits (including the recomputation of empty entries) never interfere — and the cache stays
+correct.  `_partial`: the lifting to whole messages (fixed-size fields, the seven rdata layouts and
+the section loops, which contain no pointer logic) is not proved here (see the stronger theorems
+below for the part that is); it is checked differentially on every run. -/
+theorem C02_name_agrees_strict_partial (b : Bytes) (st : St) (n : WName) (e : Nat)
+    (h : Strict.decName b st.off = some (n, e)) (hl : ∀ l ∈ n, Utf8.reencodedLen l ≤ 63)
+    (hc : CacheOK b st.cache) :
+    ∃ st', readName libCfg b st = (st', .ok n) ∧ st'.off = e ∧ CacheOK b st'.cache :=
+  readName_agrees libCfg_ok libCfg_agree b st n e h hl hc
+
+/-- the hypotheses are satisfiable: a compressed name (`a.b` at 12, then `c` + pointer to 14)
+is decoded by both to `c.b`, through the pointer -/
+example : Strict.decName [0,0,0,0,0,0,0,0,0,0,0,0, 1,97,1,98,0, 1,99,0xC0,14] 17 = some ([[99],[98]], 21)
+    ∧ (match (readName libCfg [0,0,0,0,0,0,0,0,0,0,0,0, 1,97,1,98,0, 1,99,0xC0,14] { off := 17 }).2 with
+       | .ok n => decide (n = [[99],[98]])
+       | .error _ => false) = true := by
+  decide +kernel
 
 end Zc
